@@ -273,6 +273,8 @@ class Summarizer:
         env = {}
         a = fn.args
         params = [x.arg for x in a.posonlyargs + a.args + a.kwonlyargs]
+        for k, v in getattr(self, "closure_env", {}).items():
+            env.setdefault(k, v)
         for p in params:
             env[p] = args[p] if p in args else Sym(("name", p))
         st = State(env, guards)
@@ -435,6 +437,8 @@ class Summarizer:
             return [(st, None)]
         if isinstance(n, ast.FunctionDef):
             st.env[n.name] = Sym(("func", n.name))
+            self.local_funcs = dict(getattr(self, "local_funcs", {}))
+            self.local_funcs[n.name] = n
             return [(st, None)]
         raise Unsupported("statement %s at line %d" % (type(n).__name__, n.lineno))
 
@@ -512,7 +516,7 @@ class Summarizer:
                 return None
             if isinstance(node, ast.Call) and node is not top:
                 fname = self.call_name(node)
-                tgt = self.h.inline(fname)
+                tgt = self.inline_target(fname)
                 if tgt is not None and sum(1 for x in ast.walk(tgt[0]) if isinstance(x, (ast.Return, ast.Raise))) > 1:
                     return path
             for fld, val in ast.iter_fields(node):
@@ -537,13 +541,23 @@ class Summarizer:
         """evaluate an expression that may be an inlinable call -> [(State, value)]"""
         if isinstance(n, ast.Call) and self.depth > 0:
             fname = self.call_name(n)
-            tgt = self.h.inline(fname) if hasattr(self.h, "inline") else None
+            tgt = self.inline_target(fname)
             if tgt is not None:
                 return self.inline_call(n, tgt, st)
         return [(st, self.expr(n, st))]
 
+    def inline_target(self, fname):
+        """a function nested in the one being summarised (called by its bare name) or what the hooks offer"""
+        lf = getattr(self, "local_funcs", {})
+        if fname in lf:
+            return lf[fname], "closure"
+        return self.h.inline(fname) if hasattr(self.h, "inline") else None
+
     def inline_call(self, n, tgt, st):
         fn, bind = tgt
+        closure = bind == "closure"
+        if closure:
+            bind = False
         a = fn.args
         params = [x.arg for x in a.posonlyargs + a.args]
         if bind:
@@ -563,7 +577,10 @@ class Summarizer:
                 actual[x.arg] = self.expr(d, State({}))
         if bind:
             actual[(a.posonlyargs + a.args)[0].arg] = st.env.get("self", Sym(("name", "self")))
-        sub = Summarizer(self.h, self.ctx, self.consts, self.depth - 1)
+        sub = type(self)(self.h, self.ctx, self.consts, self.depth - 1)
+        if closure:
+            # free variables of a nested function are the enclosing function's variables at the time of the call
+            sub.closure_env = dict(st.env)
         outs = []
         for leaf in sub.summarize(fn, actual, guards=st.guards):
             s = State(st.env, leaf.guards, st.events + leaf.events)
@@ -697,6 +714,9 @@ class Summarizer:
             if c is not None and c.denominator == 1 and -len(tail) <= c < 0:
                 return tail[int(c)]
         if isinstance(base, Sym) and isinstance(base.key, tuple) and base.key and base.key[0] == "listcomp":
+            if isinstance(idx, Sym) and isinstance(idx.key, tuple) and idx.key and idx.key[0] == "slice" and len(base.key) == 3:
+                # [f(x) for x in it][a:b]  ==  [f(x) for x in it[a:b]]
+                return Sym(("listcomp", base.key[1], vkey(self.subscript(base.key[2], idx))))
             # [f(x) for x in it][i]  ==  f(it[i])
             return replace_bound(base.key[1], self.subscript(base.key[2], idx))
         return Sym(("sub", vkey(base), vkey(idx)))
@@ -753,8 +773,8 @@ class Summarizer:
             return v
         # a call of an inlinable helper in expression position (a condition, an operand): the helper's paths become one
         # conditional value; helpers that can raise stay opaque here (statement-level calls are forked by expr_forks)
-        if self.depth > 0 and hasattr(self.h, "inline"):
-            tgt = self.h.inline(fname)
+        if self.depth > 0:
+            tgt = self.inline_target(fname)
             if tgt is not None:
                 try:
                     outs = self.inline_call(n, tgt, st)
